@@ -203,6 +203,9 @@ func (t *ServerTransport) handleDataRequest(w http.ResponseWriter, r *http.Reque
 }
 
 func (t *ServerTransport) Discard() {
+	// The NOOP packet below can be taken away by `QueuedPackets` before the pending poll sees it.
+	// Make sure the pending poll is released anyway. The client waits for it.
+	defer t.pq.discard()
 	t.once.Do(func() {
 		// Send a NOOP packet to force a poll cycle.
 		p, err := parser.NewPacket(parser.PacketTypeNoop, false, nil)
